@@ -2,7 +2,7 @@
 # Dev aid: run checks against a scratch worktree with one patch applied.
 # usage: tools/mut.sh <patch.diff> <ID> [<ID>...]   (IDs default to all registered)
 set -u
-PATCH=$1; shift
+PATCH=$(readlink -f "$1"); shift
 WT=/tmp/wt/scratch-$$
 git -C /repo worktree add -q --detach $WT HEAD || exit 2
 trap 'git -C /repo worktree remove --force $WT' EXIT
